@@ -1,7 +1,11 @@
 #!/usr/bin/env python3
 """Generates MANIFEST.json from the table below (kept in one place so it stays valid)."""
 import json, subprocess
+G_NOTE = "Interleavings at hook granularity (executor/run-loop hand-off, stream operations, state lock); node bodies, branch conditions and handlers are harness stubs computing provenance terms; reference model is my reading of the statement; plans are small (<=7 nodes, depth <=2)."
 claimed = {
+ "C01": ("graphsim", "Seeded search over random Pregel plans (fan-out/in, branches with scripted outcome sequences, cycles, nested graphs, step limits) x schedules; every run is compared with an independent reference superstep interpreter (result or error class, execution multiset, step bound, nested plan also run alone).", G_NOTE),
+ "C02": ("graphsim", "Seeded search over random AllPredecessor graphs and Workflows (control/data/combined dependencies, mappings, branches incl. several on one node, skip cascades, nested graphs) x schedules; compared with an independent trigger/skip reference interpreter (result, execution multiset, at-most-once).", G_NOTE),
+ "C03": ("graphsim", "Seeded search over schedules of executor goroutines and run loop (hook points inside the task manager hand-off) on plans with >=3 parallel nodes in batch and eager mode; oracle: model equality on every schedule, push/hand-off/collect conservation per run loop, deadlock detector, no return before executions finished, step budget.", G_NOTE),
  "C08": ("streamsim", "Seeded search over random stream operator trees (pipe/array/copy/merge/convert), producer and consumer tasks and schedules under the deterministic kernel; per-reader sequence algebra checked over the recorded history; deadlock, leftover-goroutine and writer-told monitors.",
          "Interleavings at hook granularity (every send/recv/close/once/select); multi-ready select decided by a seam; data races below hook granularity are not visible in Mode A."),
 }
@@ -26,6 +30,7 @@ m = {
            "source_commits": [h.split()[0] for h in hooks], "add_only": True},
  "engines": [
    {"name":"kernel","path":"sim/kernel","serves_properties":sorted(claimed),"kind_free_text":"deterministic scheduler: real goroutines parked at hook points, released one at a time when a stop-the-world goroutine snapshot shows the process quiescent; every choice from one recorded tape"},
+   {"name":"graphsim","path":"sim/graphsim","serves_properties":[p for p in sorted(claimed) if claimed[p][0]=="graphsim"],"kind_free_text":"random plan generator (Pregel/DAG/Workflow, nesting, state, streams), eino graph builder with recording harness lambdas, independent reference model, oracles"},
    {"name":"streamsim","path":"sim/streamsim","serves_properties":["C08"],"kind_free_text":"random stream operator trees with producer/consumer tasks and a sequence-algebra oracle"},
  ],
  "checks": [],
